@@ -724,6 +724,8 @@ class Evaluator:
         elif k == "def":
             st.defs[a.name] = a
             st.env[a.name] = ("func", a.name)
+            # default values are evaluated when the def statement runs (early binding of loop variables)
+            st.env[f"{a.name}.__defaults__"] = ("tuple",) + tuple(self.term(d, st, False, n.id) for d in a.args.defaults)
         elif k == "stmt":
             if isinstance(a, ast.Assign):
                 v = self.term(a.value, st, True, n.id)
